@@ -525,6 +525,10 @@ class Engine:
             return v.length > 0
         if isinstance(v, V.BytesV):
             return v.length > 0
+        if type(v).__name__ == "DynV":
+            from . import dynmodel as _dm
+
+            return _dm.truth(v)
         if isinstance(v, SymSet):
             w = ctx.fresh("wit", v.elem_sort)
             x = z3.FreshConst(v.elem_sort, "x")
@@ -1057,8 +1061,14 @@ class Engine:
         if res is not None:
             res.normal_paths += 1
         # normal return
-        for label, c in self.run_spec(ctx, lambda: contract.clauses("post", ns)):
+        post_items = self.run_spec(ctx, lambda: contract.clauses("post", ns))
+        # clauses labelled `cut-...` are proved first and may then be used by the other clauses (sequential cut)
+        post_items = [x for x in post_items if str(x[0]).startswith("cut-")] + \
+                     [x for x in post_items if not str(x[0]).startswith("cut-")]
+        for label, c in post_items:
             ctx.oblige("%s/post#%s" % (short(ctx.func), label), lift_bool(c), kind="post")
+            if str(label).startswith("cut-"):
+                ctx.assume(lift_bool(c))
         for xname, cond in contract.raises.items():
             if cond is None:
                 continue
@@ -1618,7 +1628,7 @@ class Engine:
 
     def ex_BoolOp(self, ctx, e, env):
         is_and = isinstance(e.op, ast.And)
-        if all(_pure_simple(v) for v in e.values):
+        if all(_pure_simple(v) for v in e.values) or (ctx.bound and all(_pure_isinstance(v) for v in e.values)):
             vals = [self.truth(ctx, self.eval(ctx, v, env)) for v in e.values]
             if all(isinstance(v, (bool, z3.BoolRef)) for v in vals):
                 return speclib_and(*vals) if is_and else speclib_or(*vals)
@@ -2160,6 +2170,39 @@ class Engine:
             # (opt-in per class spec: `invariant_at_calls = True`)
             for label, inv in self.class_invariants(ctx, nsd["self"]):
                 ctx.oblige("%s/pre#%s#inv.%s" % (short(ctx.func), callee, label), lift_bool(inv), kind="pre")
+        # optional cut (`cut(s) -> {label: clause}`): lemmas about the arguments that the *caller* proves at the call (own
+        # obligations `cut#callee#label`) and may use afterwards; they are not preconditions - the callee is verified
+        # without them - but split a hard derivation into two easy ones
+        cut = getattr(contract.impl, "cut", None)
+        if cut is not None and not ctx.spec_mode:
+            r_ = self.run_spec(ctx, cut, ns)
+            for label, c in (r_.items() if isinstance(r_, dict) else enumerate(r_ or [])):
+                ctx.oblige("%s/cut#%s#%s" % (short(ctx.func), callee, label), lift_bool(c), kind="pre")
+                ctx.assume(lift_bool(c))
+        # caller-side cuts at a call site (`at_call = {callee suffix: fn(s, c) -> {label: clause}}` on the contract of the
+        # function under verification; s = its own namespace incl. s.old, c = the namespace of this call): lemmas about the
+        # intermediate state, proved here (`cut@callee#label`) and usable afterwards
+        top = getattr(ctx, "top_contract", None)
+        hooks = getattr(top.impl, "at_call", None) if top is not None else None
+        if hooks and not ctx.spec_mode:
+            for suffix, fn in hooks.items():
+                if contract.qualname.endswith(suffix):
+                    r_ = self.run_spec(ctx, lambda: fn(ctx.top_ns, ns))
+                    for label, c in (r_.items() if isinstance(r_, dict) else enumerate(r_ or [])):
+                        ctx.oblige("%s/cut@%s#%s" % (short(ctx.func), callee, label), lift_bool(c), kind="pre")
+                        ctx.assume(lift_bool(c))
+        # optional case split requested by the contract (`case_split(s) -> [conditions]`): the caller's path is forked on
+        # each condition (pure path splitting: helps the solver where each case is easy but the disjunction is not)
+        cs = getattr(contract.impl, "case_split", None)
+        if cs is not None and not ctx.spec_mode:
+            for c in self.run_spec(ctx, cs, ns):
+                ctx.decide(lift_bool(c))
+        # parameters declared `MutInvObjOf`: the callee assumes their class invariant, so it must hold at the call
+        for pname, pkind in contract.params.items():
+            po = nsd.get(pname)
+            if isinstance(pkind, V.MutInvObjOf) and isinstance(po, Obj) and po.fields is not None and pname != "self":
+                for label, inv in self.class_invariants(ctx, po):
+                    ctx.oblige("%s/pre#%s#inv.%s.%s" % (short(ctx.func), callee, pname, label), lift_bool(inv), kind="pre")
         if contract.decreases is not None and getattr(ctx, "entry_measure", None) is not None and not ctx.spec_mode:
             # recursion group: the callee's termination measure must be lexicographically below the measure that the
             # function under verification had at entry, and bounded below (a scalar measure is a 1-tuple)
@@ -2602,6 +2645,18 @@ def _load(target):
     t = copy.copy(target)
     t.ctx = ast.Load()
     return t
+
+
+def _pure_isinstance(e) -> bool:
+    """isinstance(<name>, <class name(s)>) / its negation / a pure simple expression: side-effect free and non-raising
+       (used under a comprehension binding, where forking on the short-circuit is impossible)"""
+    if isinstance(e, ast.UnaryOp) and isinstance(e.op, ast.Not):
+        return _pure_isinstance(e.operand)
+    if isinstance(e, ast.Call) and isinstance(e.func, ast.Name) and e.func.id == "isinstance" and len(e.args) == 2 \
+            and not e.keywords and isinstance(e.args[0], ast.Name):
+        c = e.args[1]
+        return isinstance(c, ast.Name) or (isinstance(c, ast.Tuple) and all(isinstance(x, ast.Name) for x in c.elts))
+    return _pure_simple(e)
 
 
 def _pure_simple(e) -> bool:
